@@ -6,8 +6,11 @@ package c02
 import (
 	"fmt"
 	"os"
+	"path/filepath"
 	"strconv"
 	"strings"
+
+	"compiler/verifh/run"
 
 	"compiler/verifh/c01"
 	"compiler/verifh/fl"
@@ -104,6 +107,7 @@ func Run(c *vl.Ctx) {
 		c.Fail(vl.Fail{Case: id, Obs: fmt.Sprintf("native: %s || wasm: %s", n, w),
 			Files: map[string]string{"main.fer": fl.Render(k.P), "native.txt": n.String(), "wasm.txt": w.String(), "reference_agrees_with.txt": ref + "\n" + k.Want.String()}})
 	}
+	multiModule(c, r, famCount)
 	for f, n := range famCount {
 		c.Count("both_accept:"+f, int64(n))
 	}
@@ -119,4 +123,66 @@ func Run(c *vl.Ctx) {
 	c.Finish(vl.Coverage{Evaluations: int64(len(cases)), Exhaustive: true,
 		Rule:  "reduced-alphabet C01 families (arith/cmp/cast/flow/enum/byvalue) plus the whole order/func/closure/result/ref/str/panic/unary families, each compiled for both targets; distinct_nontrivial = cases accepted by both",
 		Bound: fmt.Sprintf("quick=%v", quick)})
+}
+
+// ---------------------------------------------------------------------------------
+// multi-module projects: what a back end calls a function, a type or a constant of another
+// module must keep two modules apart whatever their paths and names have in common.
+
+func multiModule(c *vl.Ctx, r *prog.Runner, famCount map[string]int) {
+	for _, mp := range c01.MultiProjects() {
+		if f := os.Getenv("VERIF_FILTER"); f != "" && !strings.Contains("C02/project/"+mp.ID, f) {
+			continue
+		}
+		obs := map[string]prog.Obs{}
+		for _, target := range []string{"native", "wasm"} {
+			dir := filepath.Join(r.R.NewDir(), "proj")
+			run.WriteFiles(dir, mp.Files)
+			var o prog.Obs
+			if target == "native" {
+				b := r.R.RealCompileNative(dir, "main.fer")
+				if !b.Compile.OK() || !b.Exists {
+					o = prog.Obs{Reject: prog.CanonErr(b.Compile.Stderr + "\n" + b.Compile.Stdout)}
+				} else {
+					p := r.R.Exec(b)
+					o = prog.Obs{Accepted: true, Lines: strings.Split(strings.TrimRight(p.Stdout, "\n"), "\n"), Term: "exit:" + fmt.Sprint(p.Exit)}
+					if p.Exit == 0 && p.Signal == "" {
+						o.Term = "exit0"
+					}
+				}
+			} else {
+				b := r.R.CompileWasm(dir, "main.fer")
+				if !b.Compile.OK() || !b.Exists {
+					o = prog.Obs{Reject: prog.CanonErr(b.Compile.Stderr + "\n" + b.Compile.Stdout)}
+				} else {
+					n := r.R.Node([]string{b.Artifact})[0]
+					o = prog.Obs{Accepted: true, Lines: strings.Split(strings.TrimRight(n.Stdout, "\n"), "\n"), Term: "exit0"}
+					if n.Kind != "ok" {
+						o.Term = n.Kind + ":" + n.Message
+					}
+				}
+			}
+			obs[target] = o
+			os.RemoveAll(filepath.Dir(dir))
+		}
+		n, w := obs["native"], obs["wasm"]
+		id := "C02/project/" + mp.ID
+		if !n.Accepted || !w.Accepted {
+			c.Outcome(fmt.Sprintf("outside-quantifier:native_accepts=%v wasm_accepts=%v", n.Accepted, w.Accepted))
+			c.Count("projects_outside_quantifier", 1)
+			continue
+		}
+		famCount["project"]++
+		c.Distinct(id)
+		if agree(n, w) {
+			c.Outcome("agree:project")
+			continue
+		}
+		c.Outcome("disagree:project")
+		files := map[string]string{"native.txt": n.String(), "wasm.txt": w.String()}
+		for name, content := range mp.Files {
+			files["proj/"+name] = content
+		}
+		c.Fail(vl.Fail{Case: id, Obs: fmt.Sprintf("native: %s || wasm: %s", n, w), Files: files})
+	}
 }
